@@ -57,4 +57,16 @@ PROPS = {
         modelled='generator/generator.go Build/Assign/callExisting/shouldCreateSubMethod/createSubMethod/buildMethod/convertTo/buildMethods, generator/setup.go, generator/validate.go, builder/{basic,pointer,list,map,struct,skipcopy}.go, xtype/type.go (TypeOf flags, FindField, asID), namer.Name (Gen.v, Plan.v, Eval.v); BuildSteps order and every Matches predicate, isEnum, findUnderlyingExtendMapping, shouldCheckAgainstZero are regenerated from the source (Extracted.v); not yet in the model (class D_UNMODELLED): custom functions, enums, error results, contexts, default constructors, struct-method sources',
         assumptions=['the meaning of each emitted code template (make, range, &x, nil guards) is assigned by Eval.v and validated only by executing the compiled output', 'values are finite and acyclic; map key conversions are injective on the generated values', "the harness' own reading of the boolean settings lines (the C12 model covers the settings parser)"],
     ),
+    "C12": dict(
+        props="props/C12.v",
+        libs=["theories/Settings.vo"],
+        streams=[dict(name="c12")],
+        mismatch_is_violation=True,   # the record in effect / the error class per placement is pinned by the property
+        modelled="config/parse/parse.go Bool/String/Enum, config/common.go parseCommon (key table regenerated from the source), "
+                 "config/converter.go parseConverterLine (key list regenerated), config/method.go parseMethodLine (key list regenerated; map/ignore/update/context/autoMap modelled, "
+                 "enum:map/enum:transform/default and function references not), line order global -> converter -> method on a copied record (Settings.v)",
+        assumptions=["regular expressions are kept as strings (regexp.Compile is not modelled; the stream uses valid patterns)",
+                     "validation of the converter-only settings themselves (name, output:*, extend, enum:exclude) is outside the model",
+                     "the effect of a record on generation is covered by the core streams, whose cases compute the record with this model from the raw lines"],
+    ),
 }
